@@ -92,7 +92,7 @@ func (e *Exec) materialise1(name string, t types.Type) Value {
 		}
 		e.unsupported("lazy value of type %s", t.String())
 	case *types.Struct:
-		s := &StructV{F: make([]Value, u.NumFields())}
+		s := &StructV{F: make([]Value, u.NumFields()), Origin: name}
 		for i := 0; i < u.NumFields(); i++ {
 			fn := u.Field(i).Name()
 			if !u.Field(i).Exported() && (fn == "parsedDNSNames" || fn == "parsedCommonName") && strings.HasSuffix(nt, "x509.Certificate") {
